@@ -227,6 +227,7 @@ class Interp:
   def p_sign(self, e, i): return vec(self.D.s_sign, *i)
   def p_square(self, e, i): return vec(lambda a: self.D.s_mul(a, a), *i)
   def p_floor(self, e, i): return vec(self.D.s_floor, *i)
+  def p_ceil(self, e, i): return vec(lambda a: self.D.s_neg(self.D.s_floor(self.D.s_neg(a))), *i)
   def p_round(self, e, i):
     # ROUND_TO_NEAREST_EVEN = 1, AWAY_FROM_ZERO = 0
     m = int(e.params.get('rounding_method', 1))
@@ -312,6 +313,10 @@ class Interp:
     if np.issubdtype(e.outvars[0].aval.dtype, np.bool_):
       return vec(self.D.s_not, *i)
     raise Unsupported('bitwise not on ints')
+  def p_xor(self, e, i):
+    if np.issubdtype(e.outvars[0].aval.dtype, np.bool_):
+      return vec(lambda a, b: self.D.s_or(self.D.s_and(a, self.D.s_not(b)), self.D.s_and(self.D.s_not(a), b)), *i)
+    raise Unsupported('bitwise xor on ints')
 
   def p_is_finite(self, e, i):
     # Real domain: every represented value is finite.
@@ -423,6 +428,26 @@ class Interp:
     if rev:
       out = out[::-1]
     return np.moveaxis(out, 0, ax)
+
+  def _cumulative(self, e, i, op):
+    a = toobj(i[0])
+    ax = e.params['axis']
+    rev = e.params.get('reverse', False)
+    a = np.moveaxis(a, ax, 0)
+    if rev:
+      a = a[::-1]
+    out = np.empty(a.shape, dtype=object)
+    acc = None
+    for k in range(a.shape[0]):
+      acc = a[k] if acc is None else vec(op, acc, a[k])
+      out[k] = acc
+    if rev:
+      out = out[::-1]
+    return np.moveaxis(out, 0, ax)
+
+  def p_cumprod(self, e, i): return self._cumulative(e, i, self.D.s_mul)
+  def p_cummax(self, e, i): return self._cumulative(e, i, self.D.s_max)
+  def p_cummin(self, e, i): return self._cumulative(e, i, self.D.s_min)
 
   def p_dot_general(self, e, i):
     (lc, rc), (lb, rb) = e.params['dimension_numbers']
